@@ -82,20 +82,24 @@ Example C19_example_union_hides_constant :
   let g := [(0, (KNeutral, [1; 6])); (1, (KNeutral, [2])); (2, (KOS, [])); (6, (KNeutral, [7])); (7, (KNeutral, []))] in
   secrets_ok g [0] [] = true /\ sites_ok g [] [(0, [1; 6])] = false /\ sites_ok g [] [(0, [1])] = true.
 Proof. vm_compute. repeat split; reflexivity. Qed.
+Print Assumptions C19_example_union_hides_constant.
 
 (* the hypotheses are satisfiable: secret 0 <- buffer 1 <- crypto/rand.Read 2, with an unrelated Seed site 3 *)
 Example C19_example_ok :
   secrets_ok [(0, (KNeutral, [1])); (1, (KNeutral, [2])); (2, (KOS, [])); (3, (KSeed, [4])); (4, (KTime, []))] [0] [3] = true.
 Proof. vm_compute. reflexivity. Qed.
+Print Assumptions C19_example_ok.
 
 (* ... and refuted as soon as the buffer is also filled from math/rand (5), or from nothing at all *)
 Example C19_example_prng :
   secrets_ok [(0, (KNeutral, [1])); (1, (KNeutral, [2; 5])); (2, (KOS, [])); (5, (KPrng, []))] [0] [] = false.
 Proof. vm_compute. reflexivity. Qed.
+Print Assumptions C19_example_prng.
 
 Example C19_example_no_source :
   secrets_ok [(0, (KNeutral, [1])); (1, (KNeutral, []))] [0] [] = false.
 Proof. vm_compute. reflexivity. Qed.
+Print Assumptions C19_example_no_source.
 
 (* ---- freshness: "drawn from the OS source" also means every draw is a NEW part of its output ----
    The source is a stream with a position (Misc/Fresh.v): a draw of n bytes is the range (pos, n) and
@@ -126,6 +130,8 @@ Print Assumptions C19_fresh_ok_exact.
 (* three draws 16, 32, 16 are fresh; a 32-byte value that wraps into bytes 0..16 of an earlier draw is not *)
 Example C19_example_fresh : fresh_ok 64 (draws 0 [16; 32; 16]) = true.
 Proof. vm_compute. reflexivity. Qed.
+Print Assumptions C19_example_fresh.
 
 Example C19_example_replayed : fresh_ok 256 [(0, 16); (16, 32); (240, 16); (0, 32)] = false.
 Proof. vm_compute. reflexivity. Qed.
+Print Assumptions C19_example_replayed.
